@@ -212,8 +212,8 @@ def parts(ctx):
         A(dict(name="mixed-quant-d2", profile=lambda e: P.mixed_profile(e, quant=True), depth=2, shards=64,
                dom={INT: (-1, 0, 2)}, qdoms=QDOMS, top_ops=lambda o: "_" in o.name or o.name in ("not", "and", "iff")))
     # ---- uninterpreted functions over array arguments (extensionally equal literals that are different nodes)
-    A(dict(name="ufarr-d2", profile=P.ufarr_profile, depth=2, shards=16, mid_ops=_names("f", "g"),
-           top_ops=_names("f", "iff", "eqa", "not")))
+    A(dict(name="ufarr-d2", profile=P.ufarr_profile, depth=2, shards=16, mid_ops=_names("f", "g", "k"),
+           top_ops=_names("f", "k", "iff", "eqa", "eqk", "not")))
     # ---- uninterpreted functions
     A(dict(name="uf-d2", profile=P.uf_profile, depth=2, shards=8, dom={INT: (0, 1, 2)}))
     # ---- quantifiers
